@@ -361,9 +361,27 @@ def gen_multi(rng, tier):
     return {"entry": "multi", "via": via, "calls": calls}
 
 
+# The REQUIRED stream: a fixed-seed batch (own constant seed, independent of VERIF_SEED and of the tier) that alone
+# covers every kind sanity() requires; it is prepended in both tiers, the run's seed only drives the additional
+# random stream.  sanity() evaluates its requirements on this stream (the observation-based ones too: the torch
+# seeds are part of the cases).
+REQUIRED_SEED = 190019
+REQUIRED_N = (330, 60)
+_REQUIRED = None
+
+
+def required_stream():
+    global _REQUIRED
+    if _REQUIRED is None:
+        r = C.Rng(REQUIRED_SEED)
+        _REQUIRED = ([dict(gen_case(r, "quick"), req=True) for _ in range(REQUIRED_N[0])]
+                     + [dict(gen_multi(r, "quick"), req=True) for _ in range(REQUIRED_N[1])])
+    return [dict(c) for c in _REQUIRED]
+
+
 def generate(rng, tier):
-    n, m = (900, 150) if tier == "quick" else (32000, 5000)
-    return [gen_case(rng, tier) for _ in range(n)] + [gen_multi(rng, tier) for _ in range(m)]
+    n, m = (570, 90) if tier == "quick" else (32000, 5000)
+    return required_stream() + [gen_case(rng, tier) for _ in range(n)] + [gen_multi(rng, tier) for _ in range(m)]
 
 
 # ------------------------------------------------------------------ implementation
@@ -1167,9 +1185,17 @@ def coq_term(case, obs):
 
 
 def sanity(cases, obss):
-    """Fail-closed distribution check: a run whose inputs degenerate must not report green."""
-    d = stats(cases, obss)
+    """Fail-closed distribution check: a run whose inputs degenerate must not report green.  All requirements are
+    evaluated on the REQUIRED (fixed-seed) stream, so that they do not depend on the run's seed; the bound on raising
+    calls is additionally evaluated over the whole run."""
+    req = [(c, o) for c, o in zip(cases, obss) if c is not None and c.get("req")]
+    if len(req) < sum(REQUIRED_N):
+        return [f"only {len(req)} of the {sum(REQUIRED_N)} cases of the required stream were run"]
+    whole = stats(cases, obss)
+    d = stats([c for c, _ in req], [o for _, o in req])
     probs = []
+    if whole["raise_cases"] > 0.2 * max(1, whole["total"]):
+        probs.append(f"{whole['raise_cases']} of {whole['total']} calls of the whole run raise")
     n = d["total"]
     if n == 0:
         return ["no calls"]
